@@ -118,8 +118,10 @@ package lastgersync
 //@ func (p *processor) GetLastProcessedBlock
 //@   props C16
 //@   trusted
+//@   modifies nothing
 //@   sqltext "SELECT num FROM block ORDER BY num DESC LIMIT 1;"
 //@ func (p *processor) getLatestL1InfoTreeIndex
 //@   props C16
 //@   trusted
+//@   modifies nothing
 //@   sqltext "SELECT l1_info_tree_index FROM imported_global_exit_root ORDER BY l1_info_tree_index DESC LIMIT 1;"
